@@ -14,6 +14,7 @@ import (
 	"github.com/opencontainers/image-spec/specs-go"
 	ocispec "github.com/opencontainers/image-spec/specs-go/v1"
 	"oras.land/oras-go/v2/content"
+	"oras.land/oras-go/v2/internal/spec"
 	"oras.land/oras-go/v2/internal/verifrt"
 )
 
@@ -157,6 +158,22 @@ func symDAG(K int) []vnode {
 			}
 			n.bytes = b
 			n.desc = content.NewDescriptorFromBytes(m.MediaType, b)
+		case kindArtifact:
+			a := spec.Artifact{MediaType: spec.MediaTypeArtifactManifest, ArtifactType: "application/vnd.verif.artifact", Subject: subject}
+			if verifrt.Param("distinct", 1) != 0 {
+				a.Annotations = map[string]string{"verif.node": fmt.Sprint(i)}
+			}
+			a.Blobs = []ocispec.Descriptor{}
+			for _, j := range pick() {
+				a.Blobs = append(a.Blobs, nodes[j].desc)
+				n.links = append(n.links, j)
+			}
+			b, err := json.Marshal(a)
+			if err != nil {
+				panic(err)
+			}
+			n.bytes = b
+			n.desc = content.NewDescriptorFromBytes(a.MediaType, b)
 		case kindIndex, kindDockerList:
 			idx := ocispec.Index{Versioned: specs.Versioned{SchemaVersion: 2}, Subject: subject}
 			if verifrt.Param("distinct", 1) != 0 {
